@@ -32,26 +32,25 @@ def NulFree : Identity → Prop
   | .anon => True
   | .user d _ => (0 : UInt8) ∉ d
 
-/-- worker configuration the property presupposes: ASCII, pairwise different server ids that fit the length byte -/
-structure GoodCfg (cfg : Nat → Cfg) : Prop where
-  ascii : ∀ i, ∀ b ∈ (cfg i).serverId, b.toNat < 128
-  distinct : ∀ i j, (cfg i).serverId = (cfg j).serverId → i = j
-  short : ∀ i, (cfg i).serverId.length ≤ 255
+/-- worker configuration the property presupposes: the `N` workers have ASCII, pairwise different server ids -/
+structure GoodCfg (cfg : Nat → Cfg) (N : Nat) : Prop where
+  ascii : ∀ i, i < N → ∀ b ∈ (cfg i).serverId, b.toNat < 128
+  distinct : ∀ i j, i < N → j < N → (cfg i).serverId = (cfg j).serverId → i = j
 
 /-- "the token gives access to its session": `w` is byte-for-byte a token minted by worker `wk` for identity `id`,
 for a session that is in `wk`'s registry and has not expired -/
 def Grants {Wire : Type} (C : Codec Wire) (n : Net) (wk : Nat) (id : Identity) (w : Wire) (e : Entry) : Prop :=
   ∃ m ∈ n.mints, w = C.enc m.tok ∧ m.wk = wk ∧ m.ident = id ∧ m.sid = e.sid ∧ e ∈ (n.regs wk).entries ∧ n.env.now ≤ e.expires
 
-/-- side conditions of one history step -/
-def OpOK {Wire : Type} (n : Net) : Op Wire → Prop
-  | .call _ rq script _ => NulFree rq.ident ∧ n.env.sidCtr + script.length ≤ 256 ^ 12   -- the 96-bit id space is not exhausted
+/-- side conditions of one history step (workers are numbered below `N`) -/
+def OpOK {Wire : Type} (N : Nat) (n : Net) : Op Wire → Prop
+  | .call wk rq script _ => wk < N ∧ NulFree rq.ident ∧ n.env.sidCtr + script.length ≤ 256 ^ 12   -- the 96-bit id space is not exhausted
   | _ => True
 
 /-- states reachable from empty registries -/
-inductive Reachable {Wire : Type} [DecidableEq Wire] (C : Codec Wire) (cfg : Nat → Cfg) : Net → Prop
-  | init (env : Env) : Reachable C cfg { cfg := cfg, regs := fun _ => {}, env := env }
-  | step {n : Net} (op : Op Wire) : Reachable C cfg n → OpOK n op → Reachable C cfg (n.step C op).1
+inductive Reachable {Wire : Type} [DecidableEq Wire] (C : Codec Wire) (cfg : Nat → Cfg) (N : Nat) : Net → Prop
+  | init (env : Env) : Reachable C cfg N { cfg := cfg, regs := fun _ => {}, env := env }
+  | step {n : Net} (op : Op Wire) : Reachable C cfg N n → OpOK N n op → Reachable C cfg N (n.step C op).1
 
 /-- the one answer every unsuccessful DELETE gets -/
 def deleteMiss : Nat × Bool := (200, false)
